@@ -358,3 +358,6 @@ ENTRIES["C15"]["text"] += (" Props/Tie.jacobian_is_source ([G]): the column clos
     "source on every run, are the model's jacobianColumn / wrenchOfIso (rfl).")
 ENTRIES["C18"]["text"] += (" TieCons.randomAngle_is_source ([G]): the per-joint sampler nested in random_angles, translated from the CURRENT source with the generator's draw as "
     "a parameter, is the model's randomAngle; the six calls pair from[i] with to[i] (translator check).")
+ENTRIES["C13"]["text"] += (" Props/C13b ([G]): plan_rrt_nodes_legal_and_free -- with the acceptance closure that tools/rs2lean_rrt.py reads from the CURRENT text of "
+    "RRTPlanner::plan_path (inside the robot's limits AND not reported colliding by the same robot), every interior node of a returned path is a six-joint "
+    "vector within limits and collision-free, for every robot, sample stream, step, budget and cancellation history.")
